@@ -95,3 +95,242 @@ class CompositeInit(Contract):
             p.prove(z3.BoolVal(o.f["_bounded_transform"].cls == "ProbitTransform"), f"{q}:C04:requested bounded transform class {tag}")
         if sh["bt"] == "logit" and bnd_cols:
             p.prove(z3.BoolVal(o.f["_bounded_transform"].cls == "LogitTransform"), f"{q}:C04:requested bounded transform class {tag}")
+
+
+# ------------------------------------------------------------------------------------------------------------------
+# CompositeTransform.forward / inverse / fit against spec compositions, and the round-trip lemma over the spec
+# ------------------------------------------------------------------------------------------------------------------
+from pyvc.values import Row  # noqa: E402
+
+RSORT = z3.RealSort()
+COLSEL = uf("colsel", Row, Misc, Row)                 # same symbols as pyvc.lib (x[..., mask], update_at_indices(x, (slice(None), mask), y))
+SETCOLS = uf("setcols", Row, Misc, Row, Row)
+PART = {}
+for _p in ("P", "B", "A"):
+    PART[_p] = {"fwd": uf(f"part{_p}_forward", Row, Row), "inv": uf(f"part{_p}_inverse", Row, Row),
+                "ljf": uf(f"part{_p}_forward_logj", Row, RSORT), "lji": uf(f"part{_p}_inverse_logj", Row, RSORT)}
+
+
+def _mask(name):
+    return Sym(z3.Const(name, Misc), "mask")
+
+
+def _mask_const(m):
+    return z3.Const(f"mask<{skey(m)}>", Misc)
+
+
+def spec_forward(r, on, pm, bm):
+    """periodic -> bounded -> affine on the masked columns; log-Jacobian = sum of the parts'"""
+    lj = z3.RealVal(0)
+    if on["P"]:
+        c = COLSEL(r, pm)
+        lj = lj + PART["P"]["ljf"](c)
+        r = SETCOLS(r, pm, PART["P"]["fwd"](c))
+    if on["B"]:
+        c = COLSEL(r, bm)
+        lj = lj + PART["B"]["ljf"](c)
+        r = SETCOLS(r, bm, PART["B"]["fwd"](c))
+    if on["A"]:
+        lj = lj + PART["A"]["ljf"](r)
+        r = PART["A"]["fwd"](r)
+    return r, lj
+
+
+def spec_inverse(r, on, pm, bm):
+    """the inverses in the reverse order: affine -> bounded -> periodic"""
+    lj = z3.RealVal(0)
+    if on["A"]:
+        lj = lj + PART["A"]["lji"](r)
+        r = PART["A"]["inv"](r)
+    if on["B"]:
+        c = COLSEL(r, bm)
+        lj = lj + PART["B"]["lji"](c)
+        r = SETCOLS(r, bm, PART["B"]["inv"](c))
+    if on["P"]:
+        c = COLSEL(r, pm)
+        lj = lj + PART["P"]["lji"](c)
+        r = SETCOLS(r, pm, PART["P"]["inv"](c))
+    return r, lj
+
+
+def _install_parts(I):
+    def mk(pn, which):
+        def h(I2, a, k, n):
+            x = a[1] if isinstance(a[0], Obj) else a[0]
+            if not (isinstance(x, Arr) and x.elem == "row"):
+                raise Unsupported(f"part transform applied to {x!r}")
+            I2.path.event(f"part.{which}", pn, x)
+            f = PART[pn]["fwd" if which in ("forward", "fit") else "inv"]
+            rows = Arr(x.n, "row", lambda kk, _at=x.at, _f=f: _f(_at(kk)), f"part{pn}.{which}({x.key})", x.meta)
+            if which == "fit":
+                return rows
+            g = PART[pn]["ljf" if which == "forward" else "lji"]
+            return Tup([rows, Arr(x.n, "real", lambda kk, _at=x.at, _g=g: _g(_at(kk)), f"part{pn}.{which}.logj({x.key})")])
+        return h
+    for pn in ("P", "B", "A"):
+        for which in ("forward", "inverse", "fit"):
+            I.reg.handlers[f"PartStub{pn}.{which}"] = mk(pn, which)
+
+
+class _CompositeApply(Contract):
+    properties = ("C04", "C03")
+    which = "forward"
+    inline_depth = 8
+
+    def shapes(self):
+        return [{"P": p, "B": b, "A": a} for p in (0, 1) for b in (0, 1) for a in (0, 1)]
+
+    def setup(self, I, shape):
+        _install_parts(I)
+        assumed(I, "part transforms (periodic / bounded / affine) are row-wise maps: forward -> (FWD(row), LJF(row)), inverse -> (INV(row), LJI(row)), fit(x) = forward(x)[0] "
+                   "(their own bodies are the subject of the Lean theorems and of the PartFit contracts)")
+        n = z3.Int("n_rows")
+        I.path.assume(n >= 1)
+        x = base_arr("x_in", "row", n)
+        pm, bm = _mask("periodic_mask"), _mask("bounded_mask")
+        o = Obj("CompositeTransform", {
+            "xp": Mod("xp"), "device": NONE, "dtype": NONE,
+            "periodic_parameters": PyList([Str("p0")] if shape["P"] else []),
+            "bounded_parameters": (PyList([Str("p1")]) if shape["B"] else (NONE if I.path.choose(2, "bounded-none-or-empty") == 0 else PyList([]))),
+            "affine_transform": B(bool(shape["A"])),
+            "periodic_mask": pm, "bounded_mask": bm,
+            "_periodic_transform": Obj("PartStubP", {}) if shape["P"] else NONE,
+            "_bounded_transform": Obj("PartStubB", {}) if shape["B"] else NONE,
+            "_affine_transform": Obj("PartStubA", {}) if shape["A"] else NONE,
+        })
+        if not shape["P"]:
+            o.absent.update({"periodic_mask", "_periodic_transform"})
+            o.f.pop("periodic_mask"), o.f.pop("_periodic_transform")
+        if not shape["B"]:
+            o.absent.update({"bounded_mask", "_bounded_transform"})
+            o.f.pop("bounded_mask"), o.f.pop("_bounded_transform")
+        return Pre(o, [x], {}, ghost={"x": x, "x_at": x.at, "pm": _mask_const(pm), "bm": _mask_const(bm), "shape": shape, "n": n})
+
+    def post(self, I, pre, r):
+        p, g = I.path, pre.ghost
+        q, sh = self.qual, g["shape"]
+        tag = f"[periodic {'on' if sh['P'] else 'off'}, bounded {'on' if sh['B'] else 'off'}, affine {'on' if sh['A'] else 'off'}]"
+        i = z3.Int(fresh("row"))
+        p.assume(z3.And(i >= 0, i < g["n"]), check=False)
+        spec = spec_forward if self.which in ("forward", "fit") else spec_inverse
+        want_r, want_lj = spec(g["x_at"](i), sh, g["pm"], g["bm"])
+        if self.which == "fit":
+            ok = isinstance(r, Arr) and r.elem == "row"
+            p.prove(z3.BoolVal(ok), f"{q}:C04:returns the transformed rows {tag}")
+            if ok:
+                p.prove(r.n == g["n"], f"{q}:C04:one output row per input row {tag}")
+                p.prove(r.at(i) == want_r, f"{q}:C04:fit(x) is forward(x)[0]: periodic, then bounded, then affine on their own columns {tag}")
+            return
+        ok = isinstance(r, Tup) and len(r.items) == 2 and isinstance(r.items[0], Arr) and r.items[0].elem == "row" and isinstance(r.items[1], Arr)
+        p.prove(z3.BoolVal(ok), f"{q}:C04:returns (rows, log|det J| per row) {tag}")
+        if not ok:
+            return
+        y, lj = r.items
+        order = "periodic, then bounded, then affine" if self.which == "forward" else "affine^-1, then bounded^-1, then periodic^-1"
+        p.prove(z3.And(y.n == g["n"], lj.n == g["n"]), f"{q}:C04:one output row and one log-Jacobian per input row {tag}")
+        p.prove(y.at(i) == want_r, f"{q}:C04:C03:{self.which} applies {order}, each on its own columns {tag}")
+        p.prove(lj.at(i) == want_lj, f"{q}:C04:C03:log-Jacobian of {self.which} is the sum of the applied parts' log-Jacobians, each evaluated where that part was applied {tag}")
+        # frame: the caller's array is not modified (the method works on a copy)
+        p.prove(g["x"].at(i) == g["x_at"](i), f"{q}:C04:the input array is left unchanged {tag}")
+
+
+class CompositeForward(_CompositeApply):
+    qual = "transforms:CompositeTransform.forward"
+    which = "forward"
+    doc = "forward(x) = affine(bounded^(periodic^(x))) with ^ = applied on the masked columns only; log-Jacobian = sum of the parts'; x itself untouched"
+
+
+class CompositeInverse(_CompositeApply):
+    qual = "transforms:CompositeTransform.inverse"
+    which = "inverse"
+    doc = "inverse(z) applies the parts' inverses in the reverse order on the same columns; log-Jacobian = sum of the parts' inverse log-Jacobians"
+
+
+class CompositeFit(_CompositeApply):
+    qual = "transforms:CompositeTransform.fit"
+    which = "fit"
+    doc = "fit(x) returns the rows forward(x) returns"
+
+
+def composite_roundtrip_lemma():
+    """Lemma over the *spec* compositions only (no code): under the parts' round-trip contracts and the column-selection laws,
+    spec_inverse(spec_forward(r)) = r, its log-Jacobian is the negative of the forward one, and symmetrically for forward after inverse.
+    Quantified axioms are used here and only here: the lemma is expected `unsat`; anything else is reported as undecided, never as a violation."""
+    out = []
+    r, y, y2 = z3.Consts("r y y2", Row)
+    pm, bm = z3.Consts("lemma_pm lemma_bm", Misc)
+    ax = []
+    for m in (pm, bm):
+        ax += [z3.ForAll([r, y], COLSEL(SETCOLS(r, m, y), m) == y), z3.ForAll([r, y, y2], SETCOLS(SETCOLS(r, m, y), m, y2) == SETCOLS(r, m, y2)),
+               z3.ForAll([r], SETCOLS(r, m, COLSEL(r, m)) == r)]
+    # disjoint masks (proved for __init__: bounded parameters exclude the periodic ones)
+    for m, m2 in ((pm, bm), (bm, pm)):
+        ax.append(z3.ForAll([r, y], COLSEL(SETCOLS(r, m, y), m2) == COLSEL(r, m2)))
+    for pn in ("P", "B", "A"):
+        f = PART[pn]
+        ax += [z3.ForAll([r], f["inv"](f["fwd"](r)) == r), z3.ForAll([r], f["fwd"](f["inv"](r)) == r),
+               z3.ForAll([r], f["lji"](f["fwd"](r)) == -f["ljf"](r)), z3.ForAll([r], f["ljf"](f["inv"](r)) == -f["lji"](r))]
+    x = z3.Const("lemma_x", Row)
+    for P_ in (0, 1):
+        for B_ in (0, 1):
+            for A_ in (0, 1):
+                on = {"P": P_, "B": B_, "A": A_}
+                tag = f"[periodic {'on' if P_ else 'off'}, bounded {'on' if B_ else 'off'}, affine {'on' if A_ else 'off'}]"
+                fr, fl = spec_forward(x, on, pm, bm)
+                br, bl = spec_inverse(fr, on, pm, bm)
+                ir, il = spec_inverse(x, on, pm, bm)
+                jr, jl = spec_forward(ir, on, pm, bm)
+                for nm, goal in ((f"inverse(forward(x)) = x {tag}", br == x), (f"log-Jacobian of inverse at forward(x) = -log-Jacobian of forward at x {tag}", bl == -fl),
+                                 (f"forward(inverse(z)) = z {tag}", jr == x), (f"log-Jacobian of forward at inverse(z) = -log-Jacobian of inverse at z {tag}", jl == -il)):
+                    s = z3.Solver()
+                    s.set("timeout", 20000)
+                    s.add(ax)
+                    s.add(z3.Not(goal))
+                    t0 = __import__("time").time()
+                    res = s.check()
+                    out.append({"name": f"lemma:C04:C03:composition of the verified parts: {nm}", "verdict": "proved" if res == z3.unsat else "unknown",
+                                "backend": "z3 (quantified lemma over spec functions)", "ms": 1000 * (__import__("time").time() - t0), "kind": "lemma",
+                                "function": "spec_forward/spec_inverse (contracts/transforms.py)"})
+    return out
+
+
+class _PartFit(Contract):
+    """fit(x) of an element-wise part returns what forward(x) returns as rows (the assumption the composition contracts make about parts)"""
+    properties = ("C04",)
+    cls = ""
+    doc = "fit(x) == forward(x)[0]; forward called once, on x"
+
+    def setup(self, I, shape):
+        _install_parts(I)
+        n = z3.Int("n_rows")
+        I.path.assume(n >= 1)
+        x = base_arr("x_in", "row", n)
+        o = Obj(self.cls, {"xp": Mod("xp")})
+        o.f["forward"] = Fn(lambda I2, a, k, nn, _h=I.reg.handlers["PartStubP.forward"]: _h(I2, [o] + list(a), k, nn), f"{self.cls}.forward(stub)")
+        return Pre(o, [x], {}, ghost={"x": x, "n": n})
+
+    def post(self, I, pre, r):
+        p, g = I.path, pre.ghost
+        q = self.qual
+        calls = [e for e in p.events if e[0] == "part.forward"]
+        p.prove(z3.BoolVal(len(calls) == 1 and calls[0][2] is g["x"]), f"{q}:C04:fit evaluates forward exactly once, on its argument")
+        ok = isinstance(r, Arr) and r.elem == "row"
+        p.prove(z3.BoolVal(ok), f"{q}:C04:fit returns rows")
+        if ok:
+            i = z3.Int(fresh("row"))
+            p.assume(z3.And(i >= 0, i < g["n"]), check=False)
+            p.prove(z3.And(r.n == g["n"], r.at(i) == PART["P"]["fwd"](g["x"].at(i))), f"{q}:C04:fit(x) is forward(x)[0]")
+
+
+def _mk_partfit(cls):
+    return type(f"PartFit{cls}", (_PartFit,), {"qual": f"transforms:{cls}.fit", "cls": cls})
+
+
+PartFitPeriodic = _mk_partfit("PeriodicTransform")
+PartFitBounded = _mk_partfit("BoundedTransform")
+PartFitProbit = _mk_partfit("ProbitTransform")
+PartFitLogit = _mk_partfit("LogitTransform")
+
+
+def composite_roundtrip_lemma_static(tier):
+    return composite_roundtrip_lemma()
